@@ -7,7 +7,7 @@
    definitions on the implementation, in all argument modes.
    permute is refuted on the unchanged tree (and pinned by test_permute_1): see C24_permute_refuted. *)
 From Coq Require Import List ZArith Bool Arith Permutation.
-From PV Require Import Model.Term Model.Subst Model.Unify Model.FD Model.State Model.Engine Proofs.EngineProofs Gen.RelDefs.
+From PV Require Import Model.Term Model.Subst Model.Unify Model.FD Model.State Model.Engine Proofs.EngineProofs Proofs.UnifyProofs Proofs.SemProofs Proofs.MonoProofs Proofs.RelSound Gen.RelDefs.
 Import ListNotations.
 
 Definition q0 := TVar 100 false.
@@ -141,6 +141,26 @@ Theorem C24_permute_refuted :
   end.
 Proof. exists (L []). split; [left; reflexivity|]. vm_compute. reflexivity. Qed.
 
+(* UNBOUNDED soundness, all argument modes, arbitrary (also non-ground, partial) terms, any search
+   kind, any fuel, any number of steps: whatever the engine delivers for append(a, b, c) on the
+   translated definition satisfies, under every valuation that solves the answer's substitution,
+   the inductive relation "c is a with b appended"; likewise member.  (Completeness - that every
+   such triple is delivered - is what the bounded theorems above and the check cover.) *)
+Theorem C24_append_sound : forall kk u n k st a b c s' rest u',
+  next lib_defs kk u (start lib_defs n (CCall k rel_append [a; b; c]) st) = NAnswer s' rest u' ->
+  forall th, sat th (st_smap s') -> AppendV (app th a) (app th b) (app th c).
+Proof. exact append_sound. Qed.
+Theorem C24_append_sound_lists : forall kk u n k st a b c s' rest u' th xs ys,
+  next lib_defs kk u (start lib_defs n (CCall k rel_append [a; b; c]) st) = NAnswer s' rest u' ->
+  sat th (st_smap s') -> app th a = list_term xs -> app th b = list_term ys -> app th c = list_term (xs ++ ys).
+Proof. exact append_sound_lists. Qed.
+Theorem C24_member_sound : forall kk u n k st x l s' rest u',
+  next lib_defs kk u (start lib_defs n (CCall k rel_member [x; l]) st) = NAnswer s' rest u' ->
+  forall th, sat th (st_smap s') -> MemberV (app th x) (app th l).
+Proof. exact member_sound. Qed.
+Theorem C24_member_sound_lists : forall x xs, MemberV x (list_term xs) -> In x xs.
+Proof. exact MemberV_list. Qed.
+
 Check C24_append_backward : forall ls, In ls scope4 -> is_bag (answers [GCall rel_append [q0; q1; L ls]]) (splits ls) = true.
 Print Assumptions C24_append_forward.
 Print Assumptions C24_append_backward.
@@ -151,3 +171,7 @@ Print Assumptions C24_rember.
 Print Assumptions C24_distinct.
 Print Assumptions C24_cons_first_rest_empty.
 Print Assumptions C24_permute_refuted.
+Print Assumptions C24_append_sound.
+Print Assumptions C24_append_sound_lists.
+Print Assumptions C24_member_sound.
+Print Assumptions C24_member_sound_lists.
